@@ -12,6 +12,8 @@ ops:
 * `batchfeesmax <maxElements> <token:baseFee,…|-> <token:fee:amount;…|->` — the unbatched pool in STORE ITERATION order;
   answers `GetAllBatchFees(ctx, maxElements, minBatchFees)` computed by the machine model (`createBatchFees` with the
   per-token limit and the base-fee filter, then the scheduled range + sort);
+* `f64add <a> <b>` — answers `round53 (round53 a + round53 b)`: the integer value of `float64(a) + float64(b)` (validation of
+  the binary64 model `round53` / `fadd` against the machine's float unit);
 * `updateoracles <addr:power:online:delegate,…|-> | <old proposal a,b,…|-> | <new a,b,…|->` — `UpdateProposalOracles` on
   a state with these oracles (store order) and this stored proposal; answers `err:<kind>` or `ok:<unbonded addresses in
   unbonding order|->` (the machine model with the identity schedule and the regenerated order source).
@@ -56,6 +58,10 @@ def showList (l : List String) : String := if l.isEmpty then "-" else ",".interc
 def step (st : Unit) (line : String) : Unit × String :=
   match words line with
   | "reset" :: _ => (st, "ok")
+  | ["f64add", a, b] =>
+    match a.toNat?, b.toNat? with
+    | some a, some b => (st, toString (fadd (round53 a) (round53 b)))
+    | _, _ => (st, "bad-op")
   | ["updateoracles", os, "|", old, "|", new] =>
     match (parseList os).mapM parseOracle with
     | some os =>
